@@ -15,12 +15,12 @@ package tswitch
 //@   requires record != nil && validswitch(tf, record)
 //@   modifies everything
 //@   preserves mem(base.LogTransformFunc), mem(base.LogFieldLocator), mem(switchCase), mem(bmatch.keyValueMatch), base.LogRecord.Fields, switchTransform.cases
-//@   ensures[no-case-matches] (forall c int :: 0 <= c && c < len(tf.cases) ==> !old(bmatch.matchall(tf.cases[c].matcher, record))) ==> result == base.PASS && base.tlogn == old(base.tlogn)
-//@   ensures[first-matching-case-only] forall c int :: 0 <= c && c < len(tf.cases) && old(bmatch.matchall(tf.cases[c].matcher, record))
-//@        && (forall d int :: 0 <= d && d < c ==> !old(bmatch.matchall(tf.cases[d].matcher, record)))
-//@        ==> exists k int :: 0 <= k && k <= len(tf.cases[c].then) && base.tlogn == old(base.tlogn) + k
-//@              && (forall j int :: 0 <= j && j < k ==> base.tlog[old(base.tlogn) + j] == ref(tf.cases[c].then[j]))
+//@   ensures[no-case-matches] (forall c int :: 0 <= c && c < old(len(tf.cases)) ==> !old(bmatch.matched(tf.cases[c].matcher, record))) ==> result == base.PASS && base.tlogn == old(base.tlogn)
+//@   ensures[first-matching-case-only] forall c int :: 0 <= c && c < old(len(tf.cases)) && old(bmatch.matched(tf.cases[c].matcher, record))
+//@        && (forall d int :: 0 <= d && d < c ==> !old(bmatch.matched(tf.cases[d].matcher, record)))
+//@        ==> exists k int :: 0 <= k && k <= old(len(tf.cases[c].then)) && base.tlogn == old(base.tlogn) + k
+//@              && (forall j int :: 0 <= j && j < k ==> base.tlog[old(base.tlogn) + j] == old(ref(tf.cases[c].then[j])))
 //@              && (result == base.DROP ==> k >= 1 && base.tres[old(base.tlogn) + k - 1] == 0)
-//@              && (result == base.PASS ==> k == len(tf.cases[c].then))
+//@              && (result == base.PASS ==> k == old(len(tf.cases[c].then)))
 //@   loop 1: invariant -1 <= rangeindex && rangeindex < len(tf.cases) && record != nil && base.tlogn == old(base.tlogn)
-//@   loop 1: invariant forall d int :: 0 <= d && d <= rangeindex ==> !old(bmatch.matchall(tf.cases[d].matcher, record))
+//@   loop 1: invariant forall d int :: 0 <= d && d <= rangeindex ==> !old(bmatch.matched(tf.cases[d].matcher, record))
